@@ -1,9 +1,90 @@
-import MaestroVerif.Model.Exec
+import MaestroVerif.Lemmas.ExecDemo
 
-/-! # C04 — One live job per step; resolved steps stay resolved; no orphaned jobs (theorems are being added) -/
+/-!
+# C04 — One live job per step; resolved steps stay resolved; no orphaned jobs
+-/
 namespace MaestroVerif.C04
 open MaestroVerif.Exec MaestroVerif.Gen
 
-theorem C04_init_not_canceled (cfg : Cfg) : (init cfg).isCanceled = false := rfl
+/-- **(a) No step ever received a job while it still had a live one.** -/
+theorem C04_one_live_job {cfg : Cfg} (wf : WFCfg' cfg) {g : G} (h : Reachable cfg g) :
+    g.oneJob = true ∧ g.live.Nodup :=
+  ⟨(invAll_reachable wf h).b.oneJob, (invAll_reachable wf h).b.liveN⟩
+
+/-- **(b) No launch ever concerned a step that was already resolved**
+(complete, failed or cancelled). -/
+theorem C04_never_relaunched {cfg : Cfg} (wf : WFCfg' cfg) {g : G} (h : Reachable cfg g) :
+    g.freshOk = true :=
+  (invAll_reachable wf h).b.freshOk
+
+/-- resolved steps stay resolved: the three sets only grow -/
+theorem C04_resolved_monotone (cfg : Cfg) (g : G) (p : PollIn) :
+    (∀ x, x ∈ g.completed → x ∈ (poll cfg g p).1.completed) ∧
+    (∀ x, x ∈ g.failed → x ∈ (poll cfg g p).1.failed) ∧
+    (∀ x, x ∈ g.cancelled → x ∈ (poll cfg g p).1.cancelled) :=
+  ⟨(poll_completed cfg g p).1.completed, (poll_completed cfg g p).1.failed,
+   (poll_completed cfg g p).1.cancelled⟩
+
+/-- a resolved step is neither queued nor tracked, a complete step is not
+failed or cancelled, and its state is FINISHED (DRYRUN in a dry run) -/
+theorem C04_resolved_is_final {cfg : Cfg} (wf : WFCfg' cfg) {g : G} (h : Reachable cfg g) (i : Nat) :
+    (i ∈ g.completed → i ∉ g.failed ∧ i ∉ g.cancelled ∧ i ∉ g.ready ∧ i ∉ g.inProgress ∧
+        (i ≠ 0 → g.status i = .FINISHED ∨ g.status i = .DRYRUN)) ∧
+    ((i ∈ g.failed ∨ i ∈ g.cancelled) → i ∉ g.ready ∧ i ∉ g.inProgress ∧ i ∉ g.completed ∧
+        g.status i ≠ .INITIALIZED) := by
+  have a := (invAll_reachable wf h).toInv.toInvA
+  constructor
+  · intro hc
+    have := a.cD i hc
+    exact ⟨this.1, this.2.1, this.2.2, fun hp => (a.ipD i hp).1 hc, a.cmpS i hc⟩
+  · intro hb
+    refine ⟨fun hr => ?_, fun hp => ?_, fun hc => ?_, a.badS i hb⟩
+    · have := a.rD i hr; rcases hb with hb | hb
+      · exact this.1 hb
+      · exact this.2 hb
+    · have := a.ipD i hp; rcases hb with hb | hb
+      · exact this.2.1 hb
+      · exact this.2.2.1 hb
+    · have := a.cD i hc; rcases hb with hb | hb
+      · exact this.1 hb
+      · exact this.2.1 hb
+
+/-- **(c) When a poll returns a final study status no job is live.** -/
+theorem C04_no_orphans {cfg : Cfg} (wf : WFCfg' cfg) {g : G} (h : Reachable cfg g)
+    (hv : verdict cfg g ≠ .RUNNING) : g.live = [] := by
+  have A := invAll_reachable wf h
+  have a := A.toInv.toInvA
+  have hip : g.inProgress = [] := by
+    unfold verdict at hv
+    split at hv
+    · rename_i hc
+      simp only [Bool.and_eq_true, List.isEmpty_iff] at hc
+      exact hc.2
+    · split at hv
+      · rename_i hall
+        simp only [List.all_eq_true, List.mem_range, Bool.or_eq_true, List.contains_iff_mem] at hall
+        cases hl : g.inProgress with
+        | nil => rfl
+        | cons x xs =>
+          exfalso
+          have hx : x ∈ g.inProgress := by rw [hl]; simp
+          have hn := a.bnd x (Or.inr (Or.inl hx))
+          have d := a.ipD x hx
+          rcases hall x (by omega) with (h1 | h1) | h1
+          · exact d.1 h1
+          · exact d.2.1 h1
+          · exact d.2.2.1 h1
+      · exact absurd rfl hv
+  cases hl : g.live with
+  | nil => rfl
+  | cons x xs =>
+    have : x ∈ g.inProgress := (A.b.liveEq x).mp (by rw [hl]; simp)
+    rw [hip] at this; simp at this
+
+/-! non-vacuity -/
+example : verdict demoCfg (run demoCfg demoOps) ≠ .RUNNING ∧ (run demoCfg demoOps).live = [] := by
+  have h : verdict demoCfg (run demoCfg demoOps) ≠ .RUNNING := by
+    rw [demo_state.2.2.2.2.2]; decide
+  exact ⟨h, C04_no_orphans demo_wf demo_reachable h⟩
 
 end MaestroVerif.C04
